@@ -497,6 +497,7 @@ impl<'run, 'src> Parser<'run, 'src> {
     Ok(Alias {
       attributes,
       name,
+      path: None,
       target,
     })
   }
